@@ -338,7 +338,7 @@ def _cond(ty, v):
     if r.v != ACC: return r
     for c in ty.x['conds']:
         try:
-            ok = C.pred(c)(r.val)
+            ok = bool(C.pred(c)(r.val))      # (an array-valued comparison has no truth value: that is a raising predicate)
         except Exception:
             return rej('predicate raised')
         if not ok: return rej('condition')
